@@ -23,7 +23,7 @@ func CreateRepo(repo model.RepoDescriptor, stores context2.Stores) error {
 	}
 	r, e := yaml.Marshal(repo)
 	if e != nil {
-		return err
+		return e
 	}
 	path := model.GetArchivePathToRepoDescriptor(repo.Name)
 	err = store.Put(context.Background(), path, bytes.NewReader(r), storage.NoOverWrite)
